@@ -827,8 +827,8 @@ pub fn wide_count(spec: &SoloSpec, tier: Tier) -> u64 {
         return 0;
     }
     match tier {
-        Tier::Quick => 8,
-        Tier::Thorough => 32,
+        Tier::Quick => 10,
+        Tier::Thorough => 40,
     }
 }
 
@@ -836,36 +836,79 @@ pub fn wide_count(spec: &SoloSpec, tier: Tier) -> u64 {
 /// entry i - 65 536 differ in kind), built by a stack-neutral steered program, followed by 900
 /// free-running choices: half again as many entries as a 16-bit index can address
 fn wide_mixed_memo(seed: u64, k: u64) -> Scenario {
-    let (p, put) = match (k / 8) % 4 {
-        0 => (2u8, "LONG_BINPUT"),
-        1 => (4, "MEMOIZE"),
-        2 => (1, "LONG_BINPUT"),
-        _ => (5, "MEMOIZE"),
+    // the two runs of a round: protocols 2 and 4 with LONG_BINPUT, then 1 and 5, then the same
+    // protocols with MEMOIZE (>= 4) in later rounds
+    let (p, put) = match ((k / 10) % 4, k % 10 == 7) {
+        (0, false) => (2u8, "LONG_BINPUT"),
+        (0, true) => (4, "LONG_BINPUT"),
+        (1, false) => (4, "MEMOIZE"),
+        (1, true) => (5, "MEMOIZE"),
+        (2, false) => (1, "LONG_BINPUT"),
+        (2, true) => (5, "LONG_BINPUT"),
+        (_, false) => (3, "LONG_BINPUT"),
+        (_, true) => (4, "MEMOIZE"),
     };
-    let (p, put) = if k % 8 == 7 { (if p == 2 { 4 } else if p == 4 { 2 } else if p == 1 { 5 } else { 1 }, if put == "MEMOIZE" { "LONG_BINPUT" } else { "MEMOIZE" }) } else { (p, put) };
     let reps = 32_768usize;
     let ops = vec![format!("(NONE {put} POP EMPTY_LIST {put} POP EMPTY_TUPLE {put} POP)*{reps}")];
-    let n = reps * 9 + 900;
+    let free = 4_000usize;
+    let n = reps * 9 + free;
     // steering happens under the decision-tree configuration (opt-in opcodes enabled)
     let c = tree_config(p, n);
     let mut sc = Scenario::solo(c, Entropy::Bytes(vec![]));
-    sc.steer = Some(desc::Steer { ops, tail: None, free: Some((900, desc::derive_seed(seed, "wide.mixed", k))) });
+    sc.steer = Some(desc::Steer { ops, tail: None, free: Some((free, desc::derive_seed(seed, "wide.mixed", k))) });
     sc.faults.push(desc::Fault {
         kind: "steered",
         at: 0,
-        detail: format!("98 304 memo entries of three alternating kinds through {put} (stack-neutral steered program), then 900 free-running choices"),
+        detail: format!("98 304 memo entries of three alternating kinds through {put} (stack-neutral steered program), then {free} free-running choices"),
+    });
+    sc
+}
+
+/// "low slot after the wrap": the same mixed-kind memo filled to just past 65 536 entries (entry
+/// 65 536 is a list, entry 0 is None), then a fetch of memo index 0 (BINGET / LONG_BINGET / GET with
+/// an exhausted index draw), a plain push and a typed consumer that fits what a simulation that lost
+/// the upper index bits believes is there. On code where the simulation mirrors the bytes the
+/// consumer is not offered and the recipe is not steerable (nothing to judge); where indices wrap in
+/// the simulation only, the steered pickle applies the consumer to the wrong kind.
+fn wide_wrap_probe(k: u64) -> Scenario {
+    let round = (k / 10) as usize;
+    let (p, put) = [(2u8, "LONG_BINPUT"), (4, "LONG_BINPUT"), (1, "LONG_BINPUT"), (5, "MEMOIZE")][(round * 2 + (k % 10 == 9) as usize) % 4];
+    let fetch = ["BINGET", "LONG_BINGET"][round % 2];
+    // 21 846 units of three stores: entries 0 .. 65 537; entry 65 536 is the list
+    let reps = 21_846usize;
+    // ... and one more list on top: whatever index arithmetic the simulation uses past the wrap
+    // (the next free index, or the same index again), the last store it made was a list
+    let ops = vec![
+        format!("(NONE {put} POP EMPTY_LIST {put} POP EMPTY_TUPLE {put} POP)*{reps}"),
+        "EMPTY_LIST".to_string(),
+        put.to_string(),
+        "POP".to_string(),
+        fetch.to_string(),
+        "NONE".to_string(),
+        "APPEND".to_string(),
+    ];
+    let n = crate::synth::token_ops(&ops);
+    let mut sc = Scenario::solo(tree_config(p, n), Entropy::Bytes(vec![]));
+    sc.steer = Some(desc::Steer { ops, tail: None, free: None });
+    sc.faults.push(desc::Fault {
+        kind: "steered",
+        at: 0,
+        detail: format!("65 538 memo entries of three alternating kinds through {put}, then {fetch} of index 0, NONE, APPEND (only steerable if the simulation believes slot 0 holds the list stored under 65 536)"),
     });
     sc
 }
 
 pub fn wide_scenario(spec: &SoloSpec, seed: u64, k: u64) -> Scenario {
-    if k % 8 >= 6 {
+    if k % 10 >= 8 {
+        return wide_wrap_probe(k);
+    }
+    if k % 10 >= 6 {
         return wide_mixed_memo(seed, k);
     }
     let pats = deep_patterns(seed);
-    // (objective, protocol group) in turn; rank = k / 8
-    let (obj, low) = [(3usize, true), (3, false), (2, true), (2, false), (0, true), (0, false)][(k % 8) as usize];
-    let rank = (k / 8) as usize;
+    // (objective, protocol group) in turn; rank = k / 10
+    let (obj, low) = [(3usize, true), (3, false), (2, true), (2, false), (0, true), (0, false)][(k % 10) as usize];
+    let rank = (k / 10) as usize;
     let mut idx: Vec<usize> = (0..pats.len())
         .filter(|&i| !pats[i].pat.is_empty() && !pats[i].once && (pats[i].protocol <= 1) == low && pats[i].score[obj] >= 700 && (pats[i].score[1] <= 8 || obj == 2 || obj == 0))
         .collect();
